@@ -88,7 +88,7 @@ def _check(rep, channel, cases, obs, tally, filed):
         key = "%s|%s" % (c["expect"][k - 1]["key"], coarse)
         tally[channel]["deviations"][key + " (" + what + ")"] += 1
         filed[key] += 1
-        if filed[key] > 3:
+        if filed[key] > 3 and key not in {k["key"] for k in rep.known}:
             continue            # same defect family: counted in coverage.channels, three replay files are enough
         small = dict(c, channel=channel, deviation_at_step=k, id="%s@%s" % (c["id"], channel))
         rep.finding(key, small, {"status": o["status"], "ub": o.get("ub"),
